@@ -318,10 +318,13 @@ def search_failing_input(cid, defs, n, n_inputs, rng, extra_values=(), var_ids=N
     lst = "[" + "; ".join("[" + "; ".join(fa.zc(v) for v in e) + "]" for e in envs) + "]"
     # a circuit that never settles (a feedback loop created by a wiring defect) shows different values at
     # different ticks: look at the tick by which every feed-forward circuit of this size has settled, and later
-    for ticks in (n + 3, 2 * n + 8):
-        if ticks != n + 3:
-            envs = envs[:150]
-            lst = "[" + "; ".join("[" + "; ".join(fa.zc(v) for v in e) + "]" for e in envs) + "]"
+    # cheap first: most failures show on a handful of valuations
+    rng.shuffle(envs)
+    stages = [(n + 3, envs[:60]), (n + 3, envs[60:]), (2 * n + 8, envs[:150])]
+    for ticks, envs in stages:
+        if not envs:
+            continue
+        lst = "[" + "; ".join("[" + "; ".join(fa.zc(v) for v in e) + "]" for e in envs) + "]"
         expr = (
             f"map (fun e => forallb (fun p => Z.eqb (fst p) (snd p)) "
             f"(conc_progb bp_{cid} {ticks}%nat ds_{cid} qs_{cid} rs_{cid} bqs_{cid} (env_of e))) {lst}"
